@@ -18,7 +18,9 @@ EXTENDS Bits, Sequences, SequencesExt, FiniteSets, TLC, Json
 
 CONSTANTS Ms,            \* complex dimensions explored
           RecThreshold,  \* recursion is used above this size (2048 in the code)
-          GenMode
+          GenMode,
+          Layout         \* "reim": reim_fft_ref.c (split layout); "cplx": cplx_fft_ref.c (interleaved layout, same transform, other
+                         \* small-size schedule and other table layout)
 
 VARIABLES m, E, todo, done
 vars == <<m, E, todo, done>>
@@ -77,11 +79,22 @@ Rec(M, size, base, entry) ==
   ELSE LET h == size \div 2  s == Half(entry) IN
        Twiddle(h, base, s) \o Rec(M, h, base, s) \o Rec(M, h, base + h, s + 2 * M)
 
+\* cplx_fft_ref_bfs_2 (m <= 8 in cplx_fft_ref): radix-2 passes h = size/2 .. 1, one twiddle per block, angle halved per level
+RECURSIVE Bfs2Levels(_, _, _, _, _)
+Bfs2Levels(M, size, base, h, pom) ==
+  IF h = 0 THEN <<>>
+  ELSE Concat([t \in 1 .. size \div (2 * h) |-> Twiddle(h, base + (t - 1) * 2 * h, pom + Half(FracRevExp(t - 1, 4 * M)))])
+       \o Bfs2Levels(M, size, base, h \div 2, Half(pom))
+Bfs2(M, size, base, entry) == Bfs2Levels(M, size, base, size \div 2, Half(entry))
+\* cplx_fft_ref: m = 1 nothing, m <= 8 bfs_2, m <= 2048 bfs_16, above recursive halving (its inner cases are the same functions)
+ScheduleCplx(M) == IF M = 1 THEN <<>> ELSE IF M <= 8 THEN Bfs2(M, M, 0, M) ELSE Rec(M, M, 0, M)
+
 \* reim_fft_ref: entry angle 1/4 turn = exponent M
-Schedule(M) ==
+ScheduleReim(M) ==
   CASE M = 1 -> <<>>
     [] M = 2 -> Leaf2(M, 0, M) [] M = 4 -> Leaf4(M, 0, M) [] M = 8 -> Leaf8(M, 0, M) [] M = 16 -> Leaf16(M, 0, M)
     [] OTHER -> Rec(M, M, 0, M)
+Schedule(M) == IF Layout = "cplx" THEN ScheduleCplx(M) ELSE ScheduleReim(M)
 
 -----------------------------------------------------------------------------
 Absent == -1
@@ -141,9 +154,34 @@ TBfs(M, size, entry) == IF Log2(size) % 2 = 1 THEN <<C(Half(entry)), S(Half(entr
 RECURSIVE TRec(_, _, _)
 TRec(M, size, entry) == IF size <= RecThreshold THEN TBfs(M, size, entry)
                         ELSE LET s == Half(entry) IN <<C(s), S(s)>> \o TRec(M, size \div 2, s) \o TRec(M, size \div 2, s + 2 * M)
-TableOf(M) == CASE M = 1 -> <<>> [] M = 2 -> T2(M) [] M = 4 -> T4(M) [] M = 8 -> T8(M, M) [] M = 16 -> T16(M, M) [] OTHER -> TRec(M, M, M)
+TableOfReim(M) == CASE M = 1 -> <<>> [] M = 2 -> T2(M) [] M = 4 -> T4(M) [] M = 8 -> T8(M, M) [] M = 16 -> T16(M, M) [] OTHER -> TRec(M, M, M)
+
+\* cplx tables (fill_cplx_fft_omegas_*): interleaved complexes; a twiddle is stored twice, the last radix-2 level as (z, -z)
+Z(e) == <<C(e), S(e)>>
+RECURSIVE TC2Levels(_, _, _, _)
+TC2Levels(M, size, h, pom) ==
+  IF h = 0 THEN <<>>
+  ELSE Concat([t \in 1 .. size \div (2 * h) |-> LET e == pom + Half(FracRevExp(t - 1, 4 * M)) IN
+                                                 IF h >= 2 THEN Z(e) \o Z(e) ELSE Z(e) \o Z(e + 2 * M)])
+       \o TC2Levels(M, size, h \div 2, Half(pom))
+TC16(M, s) == LET pin == Half(s)  pin2 == Half(pin)  pin4 == Half(pin2)  pin8 == Half(pin4)  j == Half(M)  k == Half(j) IN
+              Z(pin) \o Z(pin2) \o Z(pin4) \o Z(pin4 + j) \o Z(pin8) \o Z(pin8 + j) \o Z(pin8 + k) \o Z(pin8 + j + k)
+RECURSIVE TCBfsLevels(_, _, _, _)
+TCBfsLevels(M, size, mm, ss) ==
+  IF mm > 16
+  THEN LET s == Half(Half(ss)) IN
+       Concat([t \in 1 .. size \div mm |-> LET om == s + Half(Half(FracRevExp(t - 1, 4 * M))) IN Z(2 * om) \o Z(om)])
+       \o TCBfsLevels(M, size, mm \div 4, s)
+  ELSE Concat([t \in 1 .. size \div 16 |-> TC16(M, ss + FracRevExp(t - 1, 4 * M))])
+TCBfs(M, size, entry) == IF Log2(size) % 2 = 1 THEN Z(Half(entry)) \o Z(Half(entry)) \o TCBfsLevels(M, size, size \div 2, Half(entry))
+                         ELSE TCBfsLevels(M, size, size, entry)
+RECURSIVE TCRec(_, _, _)
+TCRec(M, size, entry) == IF size <= RecThreshold THEN TCBfs(M, size, entry)
+                         ELSE LET s == Half(entry) IN Z(s) \o Z(s) \o TCRec(M, size \div 2, s) \o TCRec(M, size \div 2, s + 2 * M)
+TableOfCplx(M) == IF M = 1 THEN <<>> ELSE IF M <= 8 THEN TC2Levels(M, M, M \div 2, Half(M)) ELSE TCRec(M, M, M)
+TableOf(M) == IF Layout = "cplx" THEN TableOfCplx(M) ELSE TableOfReim(M)
 
 \* ---- behaviour generation: the table of each dimension, printed once (initial state)
 Dump == (GenMode /\ done = 0) =>
-   PrintT(<<"TABLE", ToJson([m |-> m, table |-> [t \in 1 .. Len(TableOf(m)) |-> <<TableOf(m)[t][1], TableOf(m)[t][2] % (4 * m)>>]])>>)
+   PrintT(<<"TABLE", ToJson([m |-> m, layout |-> Layout, table |-> [t \in 1 .. Len(TableOf(m)) |-> <<TableOf(m)[t][1], TableOf(m)[t][2] % (4 * m)>>]])>>)
 =============================================================================
